@@ -1,6 +1,8 @@
 import Tea.Props.C04
 import Tea.Props.C06
 import Tea.Proofs.Quit
+import Tea.Proofs.Resize
+import Tea.Proofs.ResizeLocked
 /-
 C18 — OS signals and window size are reported faithfully.
 
@@ -330,5 +332,538 @@ example :
       [.cr, .text [49], .el0, .cr, .lf, .text [50], .el0, .cr, .lf, .text [51], .el0, .cub 6] ∧
     (flush (write r2 [49,10,97,98,99,100,101,102,103,104])).2 =
       [.cr, .text [49], .el0, .cr, .lf, .text [97,98,99,100,101,102], .cub 6] := by decide
+
+end Tea.Props.C18
+
+/-! ### 8. window-size reporting as a transition system: "for every sequence of terminal resizes"
+       - the code BEFORE the repair
+
+STATUS.  The theorems of this section describe the code BEFORE the repair of `checkResize`
+(tty.go; no mutex: `step` / `runLabels` / `Reachable`).  They are kept as the record of the
+defect the model found (`C18_stale_checker_race`, and the `raceFree` hypothesis that
+`C18_quiescent_last_is_true` therefore needs).  The CURRENT code - `checkResize` holds
+`resizeMu` from its size query to the hand-over of the message - is described by section 9
+(`stepL`), where the same statements hold without that hypothesis.  Every run of the repaired
+model is a run of the model of this section (`C18L_refines`), so what is proved here for EVERY
+run (`C18_report_was_true`, `C18_no_resize_lost`, `C18_startup_reported`, the counting, the
+coalescing) holds for the current code as well.
+
+The model is `Tea/Runtime/Resize.lean`: the terminal's true size (changed by the environment at
+any moment), the 1-slot SIGWINCH channel (`pending`; a second signal is coalesced), the listener
+goroutine (`take` the signal, `query` the size, `deliver` the message, wait again), the
+`checkResize` goroutines in flight (one at start-up, one per WindowSize command: `query`,
+`deliver`, gone), and what Update received (`reported`).  The theorems hold for EVERY run - every
+sequence of resizes and commands, every interleaving of the goroutines.  Helper lemmas:
+`Tea/Proofs/Resize.lean`.
+
+FINDING (`C18_stale_checker_race`).  "The last size reported is the true size once everything
+has settled" does NOT hold for every interleaving: a `checkResize` goroutine that was started at
+start-up or by a WindowSize command, has read the size and has not handed its message over yet
+is overtaken by the listener's report of a later resize, and then delivers its OLD size last.
+What holds instead: the true size IS reported after the last resize (`C18_no_resize_lost`,
+always); it is the LAST report unless the very last step was such a late delivery by a checker
+(`C18_quiescent_last_step`, `C18_quiescent_last_is_true`); and the listener alone never causes
+it (`C18_fresh_inductive`: its own stale report is always followed by another round). -/
+namespace Tea.Props.C18
+open Tea.Runtime.Resize
+
+/-- **EVERY REPORT WAS TRUE** (safety).  In every run from start-up, the `k`-th size Update
+received is the size a `query` step of the run read - the terminal's true size `t.size` at that
+moment `t` -, and that moment was before its delivery (at most `k` reports had been delivered).
+(A goroutine queries only after the event that started it: a checker exists from its start-up /
+its command on, the listener queries only after taking a signal a resize raised.) -/
+theorem C18_report_was_true (z : Size) (ls : List Label) (s : St)
+    (hrun : runLabels (init z) ls = some s) (k : Nat) (sz : Size)
+    (hk : s.reported[k]? = some sz) :
+    ∃ pre who post t, ls = pre ++ Label.query who :: post ∧
+      runLabels (init z) pre = some t ∧ t.size = sz ∧ t.reported.length ≤ k :=
+  (hist_run hrun).1 k sz hk
+
+/-- **THE INVARIANT `Fresh`** - "a signal is pending, or the listener / a checker is about to
+query, or is handing over the CURRENT size, or the last report IS the current size".  It holds
+at start-up; every reachable state satisfies `ListenerOk` (a listener holding a stale size has
+a signal pending); `Fresh` is preserved by every step that is not a late (stale) delivery by a
+checker; in fact every such step other than `cancel` ESTABLISHES it; and in a quiescent state
+it says that the last report is the true size. -/
+theorem C18_fresh_inductive (z : Size) :
+    Fresh (init z) ∧
+    (∀ s, Reachable z s → ListenerOk s) ∧
+    (∀ s l s', Reachable z s → step s l = some s' → staleDelivery s l = false →
+      (Fresh s → Fresh s') ∧ (l ≠ .cancel → Fresh s')) ∧
+    (∀ s, Fresh s → Quiescent s → lastReported s = some s.size) :=
+  ⟨fresh_init z, fun _ hr => listenerOk_reachable hr,
+   fun _ _ _ hr hs hst => ⟨fun hf => fresh_step hs (listenerOk_reachable hr) hf hst,
+     fun hl => fresh_established hs (listenerOk_reachable hr) hl hst⟩,
+   fun _ hf hq => fresh_quiescent hf hq⟩
+
+/-- **NO RESIZE IS LOST.**  From ANY state `t` (whatever the listener and the checkers are doing,
+whether a signal is already pending or not): after a resize to `sz` and any continuation `post`
+without a further resize, the size is still `sz` and its report is owed (`Owed`: a signal is
+pending, or the listener / a checker is about to query or holds `sz`, or `sz` has been delivered
+since); hence in a quiescent end state `sz` is among the reports delivered AFTER the resize. -/
+theorem C18_no_resize_lost (t s : St) (sz : Size) (post : List Label)
+    (hrun : runLabels t (.resize sz :: post) = some s) (hnr : ∀ l ∈ post, l.isResize = false) :
+    s.size = sz ∧ Owed t.reported sz s ∧
+    (Quiescent s → ∃ extra, s.reported = t.reported ++ extra ∧ sz ∈ extra) := by
+  obtain ⟨t1, h1, h2⟩ := runLabels_cons hrun
+  simp only [step, Option.some.injEq] at h1
+  subst h1
+  obtain ⟨ho, hsz⟩ := owed_run h2 hnr rfl (owed_after_resize t sz)
+  exact ⟨hsz, ho, fun hq => owed_quiescent ho hq⟩
+
+/-- **START-UP.**  In a run without any resize the size stays the initial one and, once
+quiescent, it has been reported (the start-up checker's report is one that carries it). -/
+theorem C18_startup_reported (z : Size) (ls : List Label) (s : St)
+    (hrun : runLabels (init z) ls = some s) (hnr : ∀ l ∈ ls, l.isResize = false) :
+    s.size = z ∧ (Quiescent s → z ∈ s.reported) := by
+  obtain ⟨ho, hsz⟩ := owed_run (sz := z) hrun hnr rfl (owed_init z)
+  refine ⟨hsz, fun hq => ?_⟩
+  obtain ⟨extra, he, hm⟩ := owed_quiescent ho hq
+  rw [he]; simpa using hm
+
+/-- **... AND THE LAST REPORT IS THE TRUE SIZE**, in every quiescent state (nothing pending, the
+listener waiting, no checker in flight, not cancelled) reached by a run in which no checker
+delivered a size that was stale at its delivery (`raceFree`). -/
+theorem C18_quiescent_last_is_true (z : Size) (ls : List Label) (s : St)
+    (hrun : runLabels (init z) ls = some s) (hrf : raceFree (init z) ls = true)
+    (hq : Quiescent s) : lastReported s = some s.size :=
+  fresh_quiescent (fresh_run hrun (listenerOk_init z) (fresh_init z) hrf) hq
+
+/-- ... exactly: whatever happened before, a quiescent state's last report is the true size
+UNLESS the step that led to it was a stale delivery by a checker. -/
+theorem C18_quiescent_last_step (z : Size) (ls : List Label) (t s : St) (l : Label)
+    (hrun : runLabels (init z) ls = some t) (hs : step t l = some s) (hq : Quiescent s) :
+    lastReported s = some s.size ∨ staleDelivery t l = true := by
+  cases hst : staleDelivery t l with
+  | true => exact Or.inr rfl
+  | false =>
+    refine Or.inl (fresh_quiescent (fresh_established hs
+      (listenerOk_reachable (reachable_of_run hrun)) ?_ hst) hq)
+    intro hl
+    subst hl
+    simp only [step, Option.some.injEq] at hs
+    subst hs
+    exact absurd hq.2.2.2 (by simp)
+
+/-- **THE RACE** (the reason for `raceFree`; by evaluation).  80x24 at start-up; the start-up
+checker reads 80x24; the terminal is resized to 100x30; the listener takes the signal, reads
+100x30 and delivers it; THEN the start-up checker delivers its 80x24.  Everything is quiescent,
+Update's last WindowSizeMsg is 80x24, the terminal is 100x30 - and nothing will correct it until
+the next resize.  The same with a checker started by a WindowSize command. -/
+theorem C18_stale_checker_race :
+    (runLabels (init (80, 24))
+      [.query (some 0), .resize (100, 30), .take, .query none, .deliver none,
+       .deliver (some 0)]).map (fun s => (decide (Quiescent s), s.reported, s.size))
+      = some (true, [(100, 30), (80, 24)], (100, 30)) ∧
+    (runLabels (init (80, 24))
+      [.query (some 0), .deliver (some 0), .windowSizeCmd, .query (some 0), .resize (100, 30),
+       .take, .query none, .deliver none,
+       .deliver (some 0)]).map (fun s => (decide (Quiescent s), s.reported, s.size))
+      = some (true, [(80, 24), (100, 30), (80, 24)], (100, 30)) := by decide
+
+/-- **QUIESCENCE CAN BE REACHED.**  From every reachable state that is not cancelled, exactly
+`rank s ≤ 2·(checkers in flight) + 5` internal steps (`take` / `query` / `deliver`; each enabled
+in turn, no help from the environment) lead to a quiescent state, with the size unchanged; there
+the true size has been reported, and it is the LAST report if a report by the listener was
+still to come (a signal pending, the listener querying or holding the current size).  So under
+a fair scheduler and with no further resize the true size IS reported. -/
+theorem C18_can_quiesce (z : Size) (s : St) (hr : Reachable z s) (hn : s.cancelled = false) :
+    ∃ ps s', (∀ l ∈ ps, l.isInternal = true) ∧ ps.length = rank s ∧
+      rank s ≤ 2 * s.checkers.length + 5 ∧
+      runLabels s ps = some s' ∧ Quiescent s' ∧ s'.size = s.size ∧ s.size ∈ s'.reported ∧
+      ((s.pending = true ∨ s.listener = .querying ∨ s.listener = .sending s.size) →
+        lastReported s' = some s.size) := by
+  obtain ⟨ps, s', p1, p2, p3, p4, p5, p6⟩ := quiesce s hn
+  obtain ⟨base, ho⟩ := owed_reachable hr
+  obtain ⟨ho', _⟩ := owed_run p3 (internal_not_resize p1) rfl ho
+  obtain ⟨extra, he, hm⟩ := owed_quiescent ho' p4
+  exact ⟨ps, s', p1, p2, rank_le s, p3, p4, p5,
+    by rw [he]; exact List.mem_append_right _ hm, p6⟩
+
+/-- **A RESIZE GETS REPORTED, LAST.**  After a resize to `sz` in any state that is not
+cancelled, at most `2·(checkers in flight) + 5` internal steps lead to a quiescent state whose
+LAST report is `sz`, the true size. -/
+theorem C18_resize_gets_reported (t : St) (sz : Size) (hn : t.cancelled = false) :
+    ∃ t1 ps s, step t (.resize sz) = some t1 ∧ (∀ l ∈ ps, l.isInternal = true) ∧
+      ps.length ≤ 2 * t.checkers.length + 5 ∧ runLabels t1 ps = some s ∧ Quiescent s ∧
+      s.size = sz ∧ lastReported s = some sz := by
+  obtain ⟨ps, s, p1, p2, p3, p4, p5, p6⟩ := quiesce { t with size := sz, pending := true } hn
+  exact ⟨_, ps, s, rfl, p1, by rw [p2]; exact rank_le _, p3, p4, p5, p6 (Or.inl rfl)⟩
+
+/-- **EVERY COMMAND IS ANSWERED, EXACTLY ONCE.**  In every run from start-up: (1) the reports
+delivered plus the goroutines that still owe one are exactly 1 (start-up) + the listener's takes
++ the WindowSize commands; (2) a take needs a signal: takes (+1 if a signal is pending) ≤ resizes;
+(3) so once quiescent the number of WindowSizeMsgs Update received is exactly
+1 + takes + commands - one for start-up, one for each signal taken, one for each command, none
+besides -, at most 1 + resizes + commands; (4) a command adds exactly one goroutine owing a
+report and delivers nothing itself. -/
+theorem C18_every_command_answered (z : Size) (ls : List Label) (s : St)
+    (hrun : runLabels (init z) ls = some s) :
+    inFlight s + s.reported.length = 1 + takes ls + commands ls ∧
+    takes ls + (if s.pending then 1 else 0) ≤ resizes ls ∧
+    (Quiescent s → s.reported.length = 1 + takes ls + commands ls ∧
+      s.reported.length ≤ 1 + resizes ls + commands ls) ∧
+    (∀ s1, step s .windowSizeCmd = some s1 →
+      inFlight s1 = inFlight s + 1 ∧ s1.reported = s.reported) := by
+  have h1 := count_run hrun
+  have h2 := signal_run hrun
+  have e1 : inFlight (init z) = 1 := rfl
+  have e2 : (init z).reported.length = 0 := rfl
+  have e3 : (init z).pending = false := rfl
+  rw [e1, e2] at h1
+  rw [e3] at h2
+  simp only [Bool.false_eq_true, if_false] at h2
+  refine ⟨by omega, by omega, ?_, ?_⟩
+  · intro ⟨_, q2, q3, _⟩
+    have : inFlight s = 0 := by simp [inFlight, q2, q3]
+    omega
+  · intro s1 hs1
+    have := count_step hs1
+    simp only [step] at hs1
+    split at hs1
+    · cases hs1
+      simp only [takes, commands] at this
+      simp only [inFlight, List.length_append, List.length_singleton, and_true]
+      omega
+    · cases hs1
+
+/-- **COALESCING IS SAFE.**  From ANY state `t`: (1) two resizes in a row leave exactly the state
+one resize to the last size leaves - one signal, not two; and a resize while a signal is
+already pending raises none at all.  After them, for every continuation `post` without a further
+resize: (2) the listener takes at most ONE signal; in a quiescent end state (3) it took exactly
+one, (4) the last size `b` is among the reports delivered since, and (5) it is the LAST report
+if no checker delivered late.  (6) And such an end state can be reached: at most
+`2·(checkers in flight) + 5` internal steps, last report `b`. -/
+theorem C18_coalescing_is_safe (t : St) (a b : Size) :
+    (runLabels t [.resize a, .resize b] = some { t with size := b, pending := true } ∧
+     runLabels t [.resize a, .resize b] = runLabels t [.resize b] ∧
+     (t.pending = true → step t (.resize b) = some { t with size := b })) ∧
+    (∀ post s, runLabels t (.resize a :: .resize b :: post) = some s →
+      (∀ l ∈ post, l.isResize = false) →
+      takes post ≤ 1 ∧ s.size = b ∧
+      (Quiescent s → takes post = 1 ∧ (∃ extra, s.reported = t.reported ++ extra ∧ b ∈ extra) ∧
+        (raceFree { t with size := b, pending := true } post = true →
+          lastReported s = some b))) ∧
+    (t.cancelled = false → ∃ ps s, (∀ l ∈ ps, l.isInternal = true) ∧
+      ps.length ≤ 2 * t.checkers.length + 5 ∧
+      runLabels t (.resize a :: .resize b :: ps) = some s ∧ Quiescent s ∧ s.size = b ∧
+      lastReported s = some b) := by
+  refine ⟨⟨rfl, rfl, ?_⟩, ?_, ?_⟩
+  · intro hp
+    simp only [step]
+    rw [← hp]
+  · intro post s hrun hnr
+    have hrun' : runLabels { t with size := b, pending := true } post = some s := hrun
+    have hsig := signal_run hrun'
+    have htk := taken_run hrun'
+    rw [resizes_eq_zero hnr] at hsig
+    obtain ⟨ho, hsz⟩ := owed_run hrun' hnr rfl (owed_after_resize t b)
+    refine ⟨?_, hsz, ?_⟩
+    · simp only [if_true] at hsig; omega
+    · intro hq
+      refine ⟨?_, owed_quiescent ho hq, ?_⟩
+      · rcases htk (Or.inl rfl) with h | h
+        · rw [hq.1] at h; cases h
+        · simp only [if_true] at hsig; omega
+      · intro hrf
+        have hok : ListenerOk { t with size := b, pending := true } := fun _ _ _ => rfl
+        have := fresh_quiescent (fresh_run hrun' hok (Or.inl rfl) hrf) hq
+        rw [hsz] at this; exact this
+  · intro hn
+    obtain ⟨ps, s, p1, p2, p3, p4, p5, p6⟩ := quiesce { t with size := b, pending := true } hn
+    exact ⟨ps, s, p1, by rw [p2]; exact rank_le _, p3, p4, p5, p6 (Or.inl rfl)⟩
+
+/-- coalescing, a concrete run (by evaluation): the start-up report of 80x24; a resize to 100x30
+whose signal the listener takes; while the listener is busy querying, two more resizes (120x40,
+90x20) raise ONE signal; the listener reports 90x20 (what it read), takes that signal and reports
+90x20 again.  3 resizes, 2 takes, 3 reports = 1 + 2 takes + 0 commands; the last report is the true
+size; no checker delivered late. -/
+theorem C18_coalescing_example :
+    let run : List Label :=
+      [.query (some 0), .deliver (some 0), .resize (100, 30), .take, .resize (120, 40),
+       .resize (90, 20), .query none, .deliver none, .take, .query none, .deliver none]
+    (runLabels (init (80, 24)) run).map
+        (fun s => (decide (Quiescent s), s.reported, s.size, lastReported s))
+      = some (true, [(80, 24), (90, 20), (90, 20)], (90, 20), some (90, 20)) ∧
+    (runLabels (init (80, 24)) (run.take 6)).map (fun s => (s.pending, s.listener))
+      = some (true, .querying) ∧
+    resizes run = 3 ∧ takes run = 2 ∧ commands run = 0 ∧ raceFree (init (80, 24)) run = true := by
+  decide
+
+/-- **NEGATIVE: A LISTENER THAT DRAINS LOSES A RESIZE** (by evaluation).  In the variant
+`stepDrain` - the listener empties its channel once more after each `checkResize` - this run
+ends quiescent with the last report 100x30 and the terminal at 120x40: the resize that arrived
+between the listener's `GetSize` and its `Send` is lost for good, and no checker was involved
+(the run is `raceFree`).  Under the real `step` the same labels leave the signal pending
+(`Fresh`), and the listener's next round (three more steps) reports 120x40. -/
+theorem C18_drain_loses_resize :
+    let run : List Label :=
+      [.query (some 0), .deliver (some 0), .resize (100, 30), .take, .query none,
+       .resize (120, 40), .deliver none]
+    (runLabelsDrain (init (80, 24)) run).map
+        (fun s => (decide (Quiescent s), lastReported s, s.size))
+      = some (true, some (100, 30), (120, 40)) ∧
+    raceFree (init (80, 24)) run = true ∧
+    (runLabels (init (80, 24)) run).map (fun s => (decide (Quiescent s), s.pending))
+      = some (false, true) ∧
+    (runLabels (init (80, 24)) (run ++ [.take, .query none, .deliver none])).map
+        (fun s => (decide (Quiescent s), lastReported s, s.size))
+      = some (true, some (120, 40), (120, 40)) := by decide
+
+/-- **THE RENDERER HAS THE LAST REPORTED SIZE.**  Feeding the renderer the window-size messages
+Update received, in order (each is `ROp.size`, `C18_size_adopted`), leaves it with the LAST one -
+the size every later frame is clipped to (`C18_clip_latest`).  With
+`C18_quiescent_last_is_true`: in a quiescent state of a race-free run the renderer clips to the
+terminal's true size. -/
+theorem C18_renderer_has_last_reported (r : Tea.Render.RState) (sizes : List Size) (w h : Nat)
+    (hl : sizes.getLast? = some (w, h)) :
+    (sizes.foldl (fun r sz => (Tea.Render.step r (.size sz.1 sz.2)).1) r).width = w ∧
+    (sizes.foldl (fun r sz => (Tea.Render.step r (.size sz.1 sz.2)).1) r).height = h := by
+  obtain ⟨ys, rfl⟩ := List.getLast?_eq_some_iff.1 hl
+  simp only [List.foldl_append, List.foldl_cons, List.foldl_nil]
+  exact ⟨rfl, rfl⟩
+
+end Tea.Props.C18
+
+/-! ### 9. window-size reporting AFTER the repair: size queries are serialised by a mutex
+
+The current code (tty.go):
+
+    func (p *Program) checkResize() {
+        if p.ttyOutput == nil { return }
+        p.resizeMu.Lock(); defer p.resizeMu.Unlock()
+        w, h, err := term.GetSize(fd); ...
+        p.Send(WindowSizeMsg{w, h})
+    }
+
+The model is `stepL` / `runLabelsL` / `ReachableL` of `Tea/Runtime/Resize.lean`: the state and
+the labels of section 8, every step as there, except that a `query` step (of the listener or of
+a checker) is enabled only while the mutex is free - `mutexHeld`: the program is not cancelled
+and some goroutine is in its `sending` phase, between its query and its delivery.  (A goroutine
+that is sending when the program is cancelled returns from `Send` and releases the mutex; the
+model keeps its `sending` entry but does not count it as holding the mutex.  Nothing is delivered
+after cancellation; `Quiescent` and the theorems on the order of reports are about states that
+are not cancelled - `cancelled` is never reset, so such a run has no cancelled state at all.)
+Helper lemmas: `Tea/Proofs/ResizeLocked.lean`.
+
+What the repair buys: `C18_quiescent_last_is_true` without `raceFree`
+(`C18L_quiescent_last_is_true`); `Fresh` along EVERY step (`C18L_fresh_inductive`); the
+reports are the sizes read by the queries, in the order of the queries
+(`C18L_reports_in_query_order`); the two runs of `C18_stale_checker_race` are not runs any more
+(`C18L_race_excluded`). -/
+namespace Tea.Props.C18
+open Tea.Runtime.Resize
+
+/-- **THE REPAIRED MODEL REFINES THE OLD ONE**: a step of `stepL` is a step of `step` (and a
+`query` step found the mutex free), a run is a run, a reachable state is reachable - so every
+theorem of section 8 about all runs / all reachable states holds for the repaired model. -/
+theorem C18L_refines :
+    (∀ s l s', stepL s l = some s' →
+      step s l = some s' ∧ (∀ who, l = .query who → mutexHeld s = false)) ∧
+    (∀ s ls s', runLabelsL s ls = some s' → runLabels s ls = some s') ∧
+    (∀ z s, ReachableL z s → Reachable z s) ∧
+    (∀ s who, mutexHeld s = true → stepL s (.query who) = none) ∧
+    (∀ s l, (∀ who, l ≠ .query who) → stepL s l = step s l) ∧
+    (∀ s who, mutexHeld s = false → stepL s (.query who) = step s (.query who)) := by
+  refine ⟨fun _ _ _ h => stepL_step h, fun _ _ _ h => runLabels_of_runLabelsL h,
+    fun _ _ h => reachable_of_reachableL h, fun _ who h => stepL_query_of_held who h, ?_,
+    fun _ who h => stepL_query_of_free who h⟩
+  intro s l hl
+  cases l with
+  | query who => exact absurd rfl (hl who)
+  | _ => rfl
+
+/-- **MUTUAL EXCLUSION.**  In every reachable state of the repaired model that is not cancelled
+at most ONE goroutine (the listener or one checker) is between its query and its delivery. -/
+theorem C18L_mutex (z : Size) (s : St) (hr : ReachableL z s) (hn : s.cancelled = false) :
+    (sendingNow s).length ≤ 1 := by
+  obtain ⟨ls, hrun⟩ := exists_run_of_reachableL hr
+  exact (order_run hrun hn (by simp [sendingNow, lSending, cSending, init])).1
+
+/-- **THE LAST REPORT IS THE TRUE SIZE**, in EVERY quiescent state (nothing pending, the
+listener waiting, no checker in flight, not cancelled) of EVERY run of the repaired model - no
+race-freedom hypothesis. -/
+theorem C18L_quiescent_last_is_true (z : Size) (ls : List Label) (s : St)
+    (hrun : runLabelsL (init z) ls = some s) (hq : Quiescent s) :
+    lastReported s = some s.size :=
+  fresh_quiescent (freshL_run hrun (senderOk_init z) (fresh_init z)) hq
+
+/-- **THE REPORTS ARE THE SIZES QUERIED, IN THE ORDER OF THE QUERIES.**  For every run of the
+repaired model from start-up whose end state is not cancelled: the sizes Update received
+(`reported`), followed by the size held by the one goroutine that is between query and delivery
+(`sendingNow`: at most one), are EXACTLY the sizes read by the `query` steps of the run, in the
+order of these steps (`queriedL`: `t.size` for every step `query who` taken in state `t`).  So no
+report overtakes another; once quiescent every query has been delivered, exactly once and in
+order; and the `k`-th report is the size read by the `k`-th query step. -/
+theorem C18L_reports_in_query_order (z : Size) (ls : List Label) (s : St)
+    (hrun : runLabelsL (init z) ls = some s) (hn : s.cancelled = false) :
+    s.reported ++ sendingNow s = queriedL (init z) ls ∧
+    (sendingNow s).length ≤ 1 ∧
+    (Quiescent s → s.reported = queriedL (init z) ls) ∧
+    (∀ (k : Nat) (sz : Size), s.reported[k]? = some sz →
+      (queriedL (init z) ls)[k]? = some sz) := by
+  obtain ⟨h1, h2⟩ := order_run hrun hn (by simp [sendingNow, lSending, cSending, init])
+  have h0 : (init z).reported ++ sendingNow (init z) = [] := by
+    simp [sendingNow, lSending, cSending, init]
+  rw [h0, List.nil_append] at h2
+  refine ⟨h2, h1, ?_, ?_⟩
+  · intro ⟨_, q2, q3, _⟩
+    have : sendingNow s = [] := by simp [sendingNow, lSending, cSending, q2, q3]
+    rw [← h2, this, List.append_nil]
+  · intro k sz hk
+    rw [← h2, List.getElem?_append_left (lt_of_getElem? hk)]
+    exact hk
+
+/-- **THE INVARIANT `Fresh`, ALONG EVERY STEP.**  `Fresh` ("a signal is pending, or the listener
+/ a checker is about to query, or is handing over the CURRENT size, or the last report IS the
+current size"; the definition of section 8) holds at start-up; every reachable state of the
+repaired model satisfies `SenderOk` (a goroutine holding a stale size - it holds the mutex - has
+the listener coming after it: the signal is pending, or the listener has taken it and waits for
+the mutex), which is itself inductive; `Fresh` is preserved by EVERY step of the repaired model,
+the late deliveries by checkers included; in fact every step other than `cancel` ESTABLISHES it;
+so it holds in every reachable state; and in a quiescent state it says that the last report is
+the true size. -/
+theorem C18L_fresh_inductive (z : Size) :
+    Fresh (init z) ∧ SenderOk (init z) ∧
+    (∀ s l s', stepL s l = some s' → SenderOk s → SenderOk s') ∧
+    (∀ s, ReachableL z s → SenderOk s) ∧
+    (∀ s l s', SenderOk s → stepL s l = some s' →
+      (Fresh s → Fresh s') ∧ (l ≠ .cancel → Fresh s')) ∧
+    (∀ s, ReachableL z s → Fresh s) ∧
+    (∀ s, Fresh s → Quiescent s → lastReported s = some s.size) :=
+  ⟨fresh_init z, senderOk_init z, fun _ _ _ hs hok => senderOk_stepL hs hok,
+   fun _ hr => senderOk_reachableL hr,
+   fun _ _ _ hok hs => ⟨fun hf => freshL_step hs hok hf, fun hl => freshL_established hs hok hl⟩,
+   fun _ hr => fresh_reachableL hr,
+   fun _ hf hq => fresh_quiescent hf hq⟩
+
+/-- **QUIESCENCE CAN BE REACHED.**  From every reachable state of the repaired model that is not
+cancelled, exactly `rank s ≤ 2·(checkers in flight) + 5` internal steps of the repaired model
+(`take` / `query` / `deliver`: the holder of the mutex delivers, then the goroutines query and
+deliver one after the other; each step enabled in turn, no help from the environment) lead to a
+quiescent state with the size unchanged, and there the LAST report is the true size -
+unconditionally (section 8 needed "a report by the listener is still to come" for that). -/
+theorem C18L_can_quiesce (z : Size) (s : St) (hr : ReachableL z s) (hn : s.cancelled = false) :
+    ∃ ps s', (∀ l ∈ ps, l.isInternal = true) ∧ ps.length = rank s ∧
+      rank s ≤ 2 * s.checkers.length + 5 ∧
+      runLabelsL s ps = some s' ∧ Quiescent s' ∧ s'.size = s.size ∧
+      lastReported s' = some s.size := by
+  obtain ⟨ps, s', p1, p2, p3, p4, p5⟩ := quiesceL (rank s) s rfl hn
+  have hf := freshL_run p3 (senderOk_reachableL hr) (fresh_reachableL hr)
+  exact ⟨ps, s', p1, p2, rank_le s, p3, p4, p5, by rw [← p5]; exact fresh_quiescent hf p4⟩
+
+/-- **A RESIZE GETS REPORTED, LAST.**  After a resize to `sz` in any reachable state of the
+repaired model that is not cancelled, at most `2·(checkers in flight) + 5` internal steps lead
+to a quiescent state whose LAST report is `sz`, the true size; and EVERY quiescent state
+reached after that resize without a further one has `sz` as its last report. -/
+theorem C18L_resize_gets_reported (z : Size) (t : St) (sz : Size) (hr : ReachableL z t)
+    (hn : t.cancelled = false) :
+    (∃ t1 ps s, stepL t (.resize sz) = some t1 ∧ (∀ l ∈ ps, l.isInternal = true) ∧
+      ps.length ≤ 2 * t.checkers.length + 5 ∧ runLabelsL t1 ps = some s ∧ Quiescent s ∧
+      s.size = sz ∧ lastReported s = some sz) ∧
+    (∀ post s, runLabelsL t (.resize sz :: post) = some s →
+      (∀ l ∈ post, l.isResize = false) → Quiescent s →
+      s.size = sz ∧ lastReported s = some sz) := by
+  have hr1 : ReachableL z { t with size := sz, pending := true } :=
+    ReachableL.step (.resize sz) hr rfl
+  refine ⟨?_, ?_⟩
+  · obtain ⟨ps, s, p1, p2, _, p3, p4, p5, p6⟩ :=
+      C18L_can_quiesce z { t with size := sz, pending := true } hr1 hn
+    exact ⟨_, ps, s, rfl, p1, by rw [p2]; exact rank_le _, p3, p4, p5, p6⟩
+  · intro post s hrun hnr hq
+    have hsz := (C18_no_resize_lost t s sz post (runLabels_of_runLabelsL hrun) hnr).1
+    have hf := fresh_reachableL (reachableL_runLabelsL _ hr hrun)
+    exact ⟨hsz, by rw [← hsz]; exact fresh_quiescent hf hq⟩
+
+/-- **EVERY COMMAND IS ANSWERED, EXACTLY ONCE** - the counting theorem for the repaired model.
+In every run from start-up: (1) the reports delivered plus the goroutines that still owe one are
+exactly 1 (start-up) + the listener's takes + the WindowSize commands; (2) a take needs a signal:
+takes (+1 if a signal is pending) ≤ resizes; (3) so once quiescent the number of WindowSizeMsgs
+Update received is exactly 1 + takes + commands, at most 1 + resizes + commands, (3') and it is
+the number of `query` steps of the run - every size read is delivered exactly once; (4) a command
+adds exactly one goroutine owing a report and delivers nothing itself; (5) the mutex makes no
+goroutine wait for ever: a command's checker, like everything else in flight, is answered
+within `rank` internal steps (`C18L_can_quiesce`). -/
+theorem C18L_every_command_answered (z : Size) (ls : List Label) (s : St)
+    (hrun : runLabelsL (init z) ls = some s) :
+    inFlight s + s.reported.length = 1 + takes ls + commands ls ∧
+    takes ls + (if s.pending then 1 else 0) ≤ resizes ls ∧
+    (Quiescent s → s.reported.length = 1 + takes ls + commands ls ∧
+      s.reported.length ≤ 1 + resizes ls + commands ls ∧
+      s.reported.length = (queriedL (init z) ls).length) ∧
+    (∀ s1, stepL s .windowSizeCmd = some s1 →
+      inFlight s1 = inFlight s + 1 ∧ s1.reported = s.reported) := by
+  obtain ⟨h1, h2, h3, h4⟩ := C18_every_command_answered z ls s (runLabels_of_runLabelsL hrun)
+  refine ⟨h1, h2, ?_, fun s1 hs1 => h4 s1 hs1⟩
+  intro hq
+  obtain ⟨a, b⟩ := h3 hq
+  refine ⟨a, b, ?_⟩
+  rw [← (C18L_reports_in_query_order z ls s hrun hq.2.2.2).2.2.1 hq]
+
+/-- **THE RACE IS EXCLUDED** (by evaluation).  The two runs of `C18_stale_checker_race` are NOT
+runs of the repaired model: after the start-up checker (resp. the command's checker) has read
+80x24 it holds the mutex, the listener takes the signal of the resize to 100x30 and then WAITS -
+its `query` step is not enabled (`stepL … = none`) until the checker has delivered.  The
+corresponding serialised runs (the checker delivers, then the listener queries and delivers)
+end quiescent with the true size 100x30 as the last report. -/
+theorem C18L_race_excluded :
+    -- the two runs of the counterexample are not runs any more
+    runLabelsL (init (80, 24))
+      [.query (some 0), .resize (100, 30), .take, .query none, .deliver none,
+       .deliver (some 0)] = none ∧
+    runLabelsL (init (80, 24))
+      [.query (some 0), .deliver (some 0), .windowSizeCmd, .query (some 0), .resize (100, 30),
+       .take, .query none, .deliver none, .deliver (some 0)] = none ∧
+    -- the step that is blocked is the listener's query, while the checker holds the mutex
+    (runLabelsL (init (80, 24)) [.query (some 0), .resize (100, 30), .take]).map
+        (fun s => (mutexHeld s, s.listener, stepL s (.query none), sendingNow s))
+      = some (true, .querying, none, [(80, 24)]) ∧
+    (runLabelsL (init (80, 24))
+      [.query (some 0), .deliver (some 0), .windowSizeCmd, .query (some 0), .resize (100, 30),
+       .take]).map (fun s => (mutexHeld s, s.listener, stepL s (.query none), sendingNow s))
+      = some (true, .querying, none, [(80, 24)]) ∧
+    -- the serialised runs end with the true size
+    (runLabelsL (init (80, 24))
+      [.query (some 0), .resize (100, 30), .take, .deliver (some 0), .query none,
+       .deliver none]).map (fun s => (decide (Quiescent s), s.reported, s.size, lastReported s))
+      = some (true, [(80, 24), (100, 30)], (100, 30), some (100, 30)) ∧
+    (runLabelsL (init (80, 24))
+      [.query (some 0), .deliver (some 0), .windowSizeCmd, .query (some 0), .resize (100, 30),
+       .take, .deliver (some 0), .query none,
+       .deliver none]).map (fun s => (decide (Quiescent s), s.reported, s.size, lastReported s))
+      = some (true, [(80, 24), (80, 24), (100, 30)], (100, 30), some (100, 30)) ∧
+    -- and their reports are the sizes queried, in order
+    queriedL (init (80, 24))
+      [.query (some 0), .deliver (some 0), .windowSizeCmd, .query (some 0), .resize (100, 30),
+       .take, .deliver (some 0), .query none, .deliver none]
+      = [(80, 24), (80, 24), (100, 30)] :=
+  ⟨by decide, by decide, by decide, by decide, by decide, by decide, by decide⟩
+
+/-- the mutex also serialises two checkers (by evaluation): with the start-up checker and a
+command's checker in flight, once one has queried the other's `query` is blocked; after
+cancellation the blocked goroutine may go on (the cancelled sender has left `Send` and released
+the mutex), and nothing is delivered any more. -/
+theorem C18L_checkers_serialised :
+    runLabelsL (init (80, 24)) [.windowSizeCmd, .query (some 1), .query (some 0)] = none ∧
+    (runLabelsL (init (80, 24))
+      [.windowSizeCmd, .query (some 1), .resize (100, 30), .deliver (some 1), .query (some 0),
+       .deliver (some 0)]).map (fun s => (s.reported, s.size, s.pending))
+      = some ([(80, 24), (100, 30)], (100, 30), true) ∧
+    (runLabelsL (init (80, 24))
+      [.windowSizeCmd, .query (some 1), .cancel, .query (some 0)]).map
+        (fun s => (mutexHeld s, sendingNow s, stepL s (.deliver (some 0)), s.reported))
+      = some (false, [(80, 24), (80, 24)], none, []) := by decide
+
+/-- **THE RENDERER CLIPS TO THE TRUE SIZE** once the size reporting has settled: feeding the
+renderer the WindowSizeMsgs of ANY run of the repaired model that ends quiescent leaves it with
+the terminal's true size (`C18_renderer_has_last_reported` with `C18L_quiescent_last_is_true`;
+no race-freedom hypothesis). -/
+theorem C18L_renderer_has_true_size (r : Tea.Render.RState) (z : Size) (ls : List Label)
+    (s : St) (hrun : runLabelsL (init z) ls = some s) (hq : Quiescent s) :
+    (s.reported.foldl (fun r sz => (Tea.Render.step r (.size sz.1 sz.2)).1) r).width = s.size.1 ∧
+    (s.reported.foldl (fun r sz => (Tea.Render.step r (.size sz.1 sz.2)).1) r).height
+      = s.size.2 :=
+  C18_renderer_has_last_reported r s.reported s.size.1 s.size.2
+    (C18L_quiescent_last_is_true z ls s hrun hq)
 
 end Tea.Props.C18
